@@ -1157,14 +1157,14 @@ Lemma exit_condition : forall tz cap tr st x, run (init tz cap) tr = Some st -> 
   end.
 Proof. intros tz cap tr st x Hr Hx. pose proof (exit_has_origin _ _ _ _ _ Hr Hx) as H. destruct x; exact H. Qed.
 
-Lemma r_all_left_exits : forall st, reachable st -> exited st = None -> wedged st = false ->
+Lemma r_all_left_exits : forall st, reachable st -> exited st = None -> main_ok st = true ->
   admin_only st = true -> ncounted (clients st) = 0 -> leaked st = 0 ->
   exists k st', (k <= length (queue st))%nat /\ run st (repeat DrainDeliver k) = Some st' /\
                 (wedged st' = true \/
                  exists x st'', x <> ByTerm /\ step st' ExitDeliver = Some st'' /\ exited st'' = Some x).
 Proof. intros st H. apply all_left_exits; auto. apply reachable_Inv. exact H. Qed.
 
-Lemma r_timer_forces_exit : forall st, reachable st -> exited st = None -> wedged st = false ->
+Lemma r_timer_forces_exit : forall st, reachable st -> exited st = None -> main_ok st = true ->
   admin_only st = true -> tzero st = false ->
   exists tr st', (tr = [TimerFire; ExitDeliver] \/ tr = [ExitDeliver]) /\ run st tr = Some st' /\
                  exists x, exited st' = Some x /\ x <> ByTerm.
@@ -1183,25 +1183,32 @@ Proof. intros st H. apply tzero_no_timer. apply reachable_Inv. exact H. Qed.
 (** W1: a client's -1 is still in flight when SIGINT arrives; it brings the count to zero (exit
     message #1), then the queued 0 is delivered before the exit arm is polled. *)
 Definition wedge_inflight : list event :=
-  [Accept Normal TxnMode; AuthDone 0 true; DrainDeliver; Leave 0 Clean; Sigint; DrainDeliver; DrainDeliver; TimerFire].
+  [Accept Normal TxnMode; AuthDone 0 true; DrainDeliver; Leave 0 Clean; Sigint; SigintQ; DrainDeliver; DrainDeliver; TimerFire].
+
+(** W1': ONE idle client and nothing else.  SIGINT: the broadcast goes out, the client (on another
+    worker thread) is told to go and sends its -1 before the SIGINT arm has queued its 0; -1 makes the
+    count zero (exit message #1), the 0 is delivered before the exit arm is polled.  Reproduced on the
+    real binary (about 1 run in 40 on a loaded machine). *)
+Definition wedge_overtake : list event :=
+  [Accept Normal TxnMode; AuthDone 0 true; DrainDeliver; Sigint; Poll 0; SigintQ; DrainDeliver; DrainDeliver; TimerFire].
 
 (** W2: nobody connected; after the zero a cancel request (+1, -1) is delivered first. *)
 Definition wedge_cancel : list event :=
-  [Sigint; DrainDeliver; Accept Canc TxnMode; AuthDone 0 true; Leave 0 Clean; DrainDeliver; DrainDeliver; TimerFire].
+  [Sigint; SigintQ; DrainDeliver; Accept Canc TxnMode; AuthDone 0 true; Leave 0 Clean; DrainDeliver; DrainDeliver; TimerFire].
 
-Lemma wedge_witness : forall tr, (tr = wedge_inflight \/ tr = wedge_cancel) ->
+Lemma wedge_witness : forall tr, (tr = wedge_inflight \/ tr = wedge_cancel \/ tr = wedge_overtake) ->
   exists st, run (init false 2048) tr = Some st /\ wedged st = true /\ all_gone st = true /\ tmr st = TBlocked /\
              total st = 0 /\ queue st = [] /\ exited st = None.
 Proof.
-  intros tr [-> | ->]; (eexists; split; [vm_compute; reflexivity | vm_compute; repeat split; reflexivity]).
+  intros tr [-> | [-> | ->]]; (eexists; split; [vm_compute; reflexivity | vm_compute; repeat split; reflexivity]).
 Qed.
 
 Lemma exit_liveness_refuted : exists tr st, run (init false 2048) tr = Some st /\
   all_gone st = true /\ tmr st = TBlocked /\ total st = 0 /\ queue st = [] /\
   forall tr' st', run st tr' = Some st' -> exited st' = None.
 Proof.
-  destruct (wedge_witness wedge_inflight (or_introl eq_refl)) as (st & Hr & Hw & Hg & Ht & H0 & Hq & Hx).
-  exists wedge_inflight, st. repeat split; auto.
+  destruct (wedge_witness wedge_overtake (or_intror (or_intror eq_refl))) as (st & Hr & Hw & Hg & Ht & H0 & Hq & Hx).
+  exists wedge_overtake, st. repeat split; auto.
   intros tr' st' Hr'. destruct (wedge_forever _ _ _ Hw Hx Hr'). auto.
 Qed.
 
@@ -1210,17 +1217,18 @@ Definition known_wedge (tz : bool) (cap : nat) (tr : list event) : bool :=
   match run (init tz cap) tr with Some st => wedged st | None => false end.
 
 Lemma exit_liveness_guarded : forall tz cap tr st, run (init tz cap) tr = Some st -> known_wedge tz cap tr = false ->
-  exited st = None -> admin_only st = true -> tzero st = false ->
+  mid_sigint st = false -> exited st = None -> admin_only st = true -> tzero st = false ->
   exists tr' st', run st tr' = Some st' /\ exists x, exited st' = Some x /\ x <> ByTerm.
 Proof.
-  intros tz cap tr st Hr Hk Hx Ha Htz. unfold known_wedge in Hk. rewrite Hr in Hk.
+  intros tz cap tr st Hr Hk Hm Hx Ha Htz. unfold known_wedge in Hk. rewrite Hr in Hk.
   destruct (timer_forces_exit st) as (tr' & st' & _ & Hr' & Hy); auto.
   - apply reachable_Inv. exists tz, cap, tr. exact Hr.
+  - apply main_ok_split. auto.
   - eauto.
 Qed.
 
 Lemma known_wedge_refuted : exists tr, known_wedge false 2048 tr = true.
-Proof. exists wedge_inflight. vm_compute. reflexivity. Qed.
+Proof. exists wedge_overtake. vm_compute. reflexivity. Qed.
 
 (** W3: SIGINT on a full drain channel.  1024 cancel requests (or connect/disconnect pairs) whose
     +1/-1 the main loop has not received yet fill the 2048 slots ([qcap]); the SIGINT arm's own
@@ -1231,7 +1239,7 @@ Definition cancel_burst (n : nat) : list event :=
 
 (* the witness is computed for a channel of 64 slots (32 requests); the schedule is the same for 2048 *)
 Definition wedge_full_cap : nat := 64.
-Definition wedge_full : list event := cancel_burst 32 ++ [Sigint].
+Definition wedge_full : list event := cancel_burst 32 ++ [Sigint; SigintQ].
 
 Definition is_tnone (t : timer) : bool := match t with TNone => true | _ => false end.
 Definition is_none {A : Type} (o : option A) : bool := match o with None => true | _ => false end.
@@ -1264,6 +1272,7 @@ Qed.
 Lemma wedged_no_timer_step : forall st e st', wedged st = true -> tmr st = TNone -> step st e = Some st' -> tmr st' = TNone.
 Proof.
   intros st a s Hw Ht Es. unfold step, main_ok in Es. destruct (exited st); try discriminate. rewrite Hw in Es. simpl in Es.
+  rewrite ?orb_true_r in Es.
   destruct a; try discriminate.
   * destruct (nth_error (clients st) c); try discriminate. destruct (cphase c0); try discriminate.
     destruct (ckind c0); [destruct (gate c0); [| destruct ok] | destruct ok | destruct ok]; fin Es; unf; auto.
